@@ -58,6 +58,13 @@ func (*StringCastingMangler) Unmangle(sf reflect.StructField, vs []FieldValueTup
 	if castVal.Type() != sf.Type && castVal.Type().ConvertibleTo(sf.Type) {
 		castVal = castVal.Convert(sf.Type)
 	}
+	// parse.String returns slices and maps as they are, so a user-declared
+	// pointer to one (e.g. *[]string) still needs its pointer.
+	if sf.Type.Kind() == reflect.Ptr && castVal.Kind() != reflect.Ptr && castVal.Type().ConvertibleTo(sf.Type.Elem()) {
+		ptrVal := reflect.New(sf.Type.Elem())
+		ptrVal.Elem().Set(castVal.Convert(sf.Type.Elem()))
+		castVal = ptrVal
+	}
 	return castVal, nil
 }
 
